@@ -140,13 +140,19 @@ def work(unit, tier):
                 for text in G.renderings(sp, thorough=True):
                     part["evaluations"] += 1
                     part["steps"] += 1
-                    obj = parse(text)
+                    try:
+                        obj = parse(text)
+                    except BaseException as e:
+                        part["violations"].append(violation(
+                            PROP, "spelling-rejected", {"text": text, "expected": repr(exp)},
+                            f"documented spelling {text!r} raised {type(e).__name__}: {e}", tags=["symptom:rejected"]))
+                        continue
                     objs.append((text, obj))
                     if G.decode(obj) != exp:
                         part["violations"].append(violation(
                             PROP, "wrong-structure", {"text": text, "expected": repr(exp)},
                             f"{text!r} compiled to {G.decode(obj)!r}, expected {exp!r}", tags=["symptom:structure"]))
-            for text, obj in objs[1:]:
+            for text, obj in objs[1:] if objs else []:
                 if obj is not objs[0][1]:
                     part["violations"].append(violation(
                         PROP, "spellings-differ", {"text": text, "other": objs[0][0]},
